@@ -213,6 +213,12 @@ class StarConversionSpecifier:
             yield f"'*' special specifier only accepts ints, not {arg}"
 
 
+# Types whose instances never compare equal to a str
+_NEVER_EQUAL_TO_STR = frozenset(
+    {int, bool, float, complex, bytes, tuple, frozenset, type(None)}
+)
+
+
 @dataclass
 class PercentFormatString:
     """Class representing a parsed % format string.
@@ -342,6 +348,14 @@ class PercentFormatString:
                         seen_keys.add(pair.key.val)
                         for specifier in cs_map[pair.key.val]:
                             yield from specifier.accept(pair.value, ctx)
+                    elif (
+                        not self.is_bytes
+                        and isinstance(pair.key, KnownValue)
+                        and type(pair.key.val) in _NEVER_EQUAL_TO_STR
+                    ):
+                        # a literal key of one of these types can never be equal to
+                        # a str mapping key, so it cannot provide a missing key
+                        continue
                     else:
                         non_literals.append(pair.key)
                 keys_left = [key for key in cs_map if key not in seen_keys]
